@@ -78,6 +78,7 @@ EXN = {'ValueError': 'ValueError', 'IndexError': 'IndexError', 'KeyError': 'KeyE
        'FortranEngineError': 'FortranEngineError', 'OverflowError': 'OverflowError', 'TypeError': 'TypeError'}
 CAUSE_TAG = {'RuntimeWarning': 1, 'IndexError': 2, 'ZeroDivisionError': 10}
 TOL = 1e-10
+WRAP_WIDTH = 100          # default wrap_width of build_fortran_definition
 
 # ===================================================================================================== syntax trees
 # ['v', name, k] variable   ['p', name] {parameter}   ['e', name] <error>   ['i', z] integer literal   ['d', 'text'] decimal literal
@@ -462,6 +463,14 @@ def corpus(rng):
     P.append(prog(['Y', ['b', '/', ['v', 'X', 0], ['v', 'Z', 0]]], ['C', ['f', 'log', ['v', 'Y', 0]]], family='trans'))
     P.append(prog(['Y', ['b', '+', ['b', '*', ['d', '0.5'], ['v', 'Y', 0]], ['b', '/', ['v', 'X', 0], ['i', 2]]]], family='lit'))
     P.append(prog(['Y', ['b', '+', ['b', '^', ['v', 'X', 0], ['i', 3]], ['b', '^', ['v', 'Z', 0], ['neg', ['i', 2]]]]], family='powi'))
+
+    def nest(k, leaf):
+        for _ in range(k):
+            leaf = ['f', 'abs', leaf]
+        return leaf
+    P.append(prog(['Y', nest(26, ['v', 'X', 0])], family='wrap'))          # blank-free run > 100: textwrap breaks `abs` (finding)
+    P.append(prog(['Y', nest(21, ['v', 'X', 0])], family='wrap'))          # 21 * 4 + 16 = 100 characters: the longest run that still fits
+    P.append(prog(['Y', ['b', '+', ['v', 'X', 0], nest(22, ['v', 'Z', -1])]], family='wrap'))   # 104: broken
     return P
 
 
@@ -556,6 +565,12 @@ def build(script):
         errs = re.findall(r'Error: (.*)', msg)
         b.compile = errs[0] if errs else msg[-200:]
         b.F = None
+    b.maxword = 0
+    for s_ in b.symbols:
+        if getattr(s_, 'equation', None):
+            want = re.sub(r'([_A-Za-z][_A-Za-z0-9]*)\[t([+-]\d+)?\]',
+                          lambda m_: 'solved_values(%d, index%s)' % (b.names.index(m_.group(1)) + 1, m_.group(2) or ''), s_.equation)
+            b.maxword = max([b.maxword] + [len(w) for w in want.split()])
     m = re.search(r'integer :: lags = (-?\d+), leads = (-?\d+)', b.text)
     flat = re.sub(r'\s*&\n\s*&\s*', ' ', b.text)
     me = re.search(r'dimension\((\d+)\) :: endogenous(?: = \(/ (.*?) /\))?', flat)
@@ -708,7 +723,7 @@ def impl(case):
     b = build(case['script'])
     prog = case['prog']
     names = b.names
-    obs = {'names': names, 'compile': b.compile, 'fmod': b.fmod}
+    obs = {'names': names, 'compile': b.compile, 'fmod': b.fmod, 'maxword': b.maxword}
     m, span = _instantiate(b.Rec, case)
     obs['check'] = [names.index(x) for x in m.check]
     obs['endo'] = [names.index(x) for x in m.endogenous]
@@ -794,7 +809,7 @@ def impl_text(case):
     return {'endo': by(Type.ENDOGENOUS), 'exo': by(Type.EXOGENOUS), 'par': by(Type.PARAMETER), 'err': by(Type.ERROR),
             'names': b.names, 'equations': [s.equation for s in syms if s.type == Type.ENDOGENOUS and s.equation is not None],
             'blocks': blocks, 'defs': defs, 'lags': int(mm.group(1)), 'leads': int(mm.group(2)),
-            'sym_lags': [int(s.lags) for s in nis], 'sym_leads': [int(s.leads) for s in nis], 'compile': b.compile,
+            'sym_lags': [int(s.lags) for s in nis], 'sym_leads': [int(s.leads) for s in nis], 'compile': b.compile, 'maxword': b.maxword,
             'summary': re.findall(r'^!   (.*)$', text, re.M)}
 
 
@@ -932,7 +947,9 @@ def c_ccase(case, obs):
     por = '(mkOr %s %s %s)' % (tab1(t['pexp']), tab1(t['plog']), tab2(t['ppow']))
     for_ = '(mkOr %s %s %s)' % (tab1(t['fexp']), tab1(t['flog']), tab2(t['fpow']))
     py = c_obs(case['entry'], obs['py'])
-    if obs['f'] is None:
+    if obs['f'] is None and obs.get('maxword', 0) > WRAP_WIDTH:
+        f = 'None'           # the module is rejected because textwrap split a token (kept finding): not a property of the syntax tree
+    elif obs['f'] is None:
         f = '(Some (%s, XNoCompile))' % st0
     elif f_side_compared(case, obs) and not r4_transcendental(case['prog']) and not minmax_unspecified(case, obs):
         f = c_obs(case['entry'], obs['f'])
@@ -980,6 +997,9 @@ let () =
         | ["X"; names; x] -> (match index_of (strs names) (explode x) with Some n -> "=" ^ string_of_int (int_of_nat n) | None -> "!None")
         | ["L"; l; mn] -> "=" ^ string_of_int (int_of_z (lag_of (List.map z_of_int (ints l)) (z_of_int (int_of_string mn))))
         | ["M"; l; mn] -> "=" ^ string_of_int (int_of_z (lead_of (List.map z_of_int (ints l)) (z_of_int (int_of_string mn))))
+        | ["I"; k] -> "=" ^ implode (idx_text (z_of_int (int_of_string k)))
+        | ["T"; num; k] -> "=" ^ implode (term_f (nat_of_int (int_of_string num)) (idx_text (z_of_int (int_of_string k))))
+        | ["U"; num; k] -> "=" ^ implode (explode "solved_values(" @ explode num @ explode ", " @ f_idx_text (z_of_int (int_of_string k)) @ explode ")")
         | _ -> "?bad request"
       in
       print_string (esc out); print_newline ()
@@ -988,7 +1008,7 @@ let () =
 '''
 EXTRACT_V = '''From Coq Require Import ExtrOcamlBasic ExtrOcamlString.
 Require Import Fsic.Fortran.FText.
-Extraction "ftext.ml" rewrite segments stream block int_array_def wrapped_def number_of index_of lag_of lead_of.
+Extraction "ftext.ml" rewrite segments stream block int_array_def wrapped_def number_of index_of lag_of lead_of idx_text f_idx_text term_f.
 '''
 
 
@@ -1027,6 +1047,12 @@ def nospace(x):
     return re.sub(r'\s+', '', x)
 
 
+def wsnorm(x):
+    """Runs of blanks collapsed to one blank: equality of wsnorm(' '.join(lines)) with wsnorm(code) says the lines are the code
+    broken at blanks only (no token split, none glued)."""
+    return ' '.join(x.split())
+
+
 def unwrap_block(entry):
     """Actual indented block -> (first line, wrapped lines) ; inverse of indent + the continuation join."""
     lines = entry.split('\n')
@@ -1054,10 +1080,34 @@ def text_requests(case, o):
             rq.append(('?', '=never', 'block does not start with the commented equation: %r' % blk[:80]))
             continue
         wrapped = body[len('! ' + eq + '\n'):].split('  &\n&  ')
-        joined = nospace(''.join(wrapped))
-        rq.append(('R\t%s\t%s' % (nm, eq), (lambda a, j=joined: a.startswith('=') and nospace(a[1:]) == j), 'rewrite of %r' % eq[:60]))
-        rq.append(('S\t%s\t%s' % (nm, eq), (lambda a, j=joined: a.startswith('=') and nospace(a[1:]) == j), 'stream rewrite of %r' % eq[:60]))
+        joined = wsnorm(' '.join(wrapped))
+
+        def same_code(a, j=joined):
+            if not a.startswith('='):
+                return False
+            if wsnorm(a[1:]) == j:
+                return True
+            # a blank-free run longer than the wrap width: textwrap breaks inside it (kept finding); the lines still are the code
+            return max(len(w) for w in a[1:].split()) > WRAP_WIDTH and nospace(a[1:]) == nospace(j)
+        rq.append(('R\t%s\t%s' % (nm, eq), same_code, 'rewrite of %r' % eq[:60]))
+        rq.append(('S\t%s\t%s' % (nm, eq), same_code, 'stream rewrite of %r' % eq[:60]))
         rq.append(('B\t%s\t%s' % (eq, US.join(wrapped)), '=' + blk.replace('\n', '\x1e'), 'block of %r' % eq[:60]))
+    # every term of the syntax tree: NAME[idx_text k] stands in the equation, term_f (number) (idx_text k) = solved_values(number, f_idx_text k)
+    # stands in the code generated for it
+    by_lhs = {}
+    for eq, blk in zip(o['equations'], o['blocks']):
+        by_lhs[eq.split('[', 1)[0]] = (eq, nospace(re.sub(r'\s*&\n\s*&\s*', ' ', blk.split('\n', 1)[1] if '\n' in blk else '')))
+    for lhs, rhs in case['prog']['eqs']:
+        if lhs not in by_lhs:
+            rq.append(('?', '=never', 'no equation block for %s' % lhs))
+            continue
+        eq, code = by_lhs[lhs]
+        terms = {(lhs, 0)} | {(nd[1], nd[2] if nd[0] == 'v' else 0) for nd in walk(rhs) if nd[0] in ('v', 'p', 'e')}
+        for name, k in sorted(terms):
+            num = o['names'].index(name) + 1
+            rq.append(('I\t%d' % k, (lambda a, e=eq, nm_=name: a.startswith('=') and (nm_ + '[' + a[1:] + ']') in e), 'index text of %s at %d in the equation' % (name, k)))
+            rq.append(('T\t%d\t%d' % (num, k), (lambda a, c=code: a.startswith('=') and nospace(a[1:]) in c), 'term %s at %d in the code' % (name, k)))
+            rq.append(('U\t%d\t%d' % (num, k), (lambda a, c=code: a.startswith('=') and nospace(a[1:]) in c), 'solved_values(%d, index%+d) in the code' % (num, k)))
     for d_, (lst, name) in zip(o['defs'], [(o['endo'], 'endogenous'), (o['exo'], 'exogenous'), (o['par'], 'parameters'), (o['err'], 'errors')]):
         body = unwrap_block(d_)
         if body is None:
@@ -1065,7 +1115,7 @@ def text_requests(case, o):
             continue
         wrapped = body.split('  &\n&  ')
         nums = [o['names'].index(x) + 1 for x in lst]
-        rq.append(('D\t%s\t%s' % (name, US.join(map(str, nums))), (lambda a, j=nospace(''.join(wrapped)): a.startswith('=') and nospace(a[1:]) == j), 'definition of %s' % name))
+        rq.append(('D\t%s\t%s' % (name, US.join(map(str, nums))), (lambda a, j=wsnorm(' '.join(wrapped)): a.startswith('=') and wsnorm(a[1:]) == j), 'definition of %s' % name))
         rq.append(('W\t%s' % US.join(wrapped), '=' + d_.replace('\n', '\x1e'), 'wrapped definition of %s' % name))
     return rq
 
@@ -1170,6 +1220,9 @@ def oracle(case, obs):
             bad('compile|mixed-kind-minmax', 'gfortran rejects min/max of an integer literal and a REAL(8) variable (%s)' % obs['compile'][:80])
         elif 'integer-argument-exp-log' in cls:
             bad('compile|integer-argument-exp-log', 'gfortran rejects exp/log of an integer literal (%s)' % obs['compile'][:80])
+        elif obs.get('maxword', 0) > WRAP_WIDTH:
+            bad('compile|wrap-splits-token', 'the rewritten equation has a blank-free run of %d > %d characters: textwrap.wrap (break_long_words) '
+                'breaks it inside a token and the continuation `  &\\n&  ` puts blanks there (%s)' % (obs['maxword'], WRAP_WIDTH, obs['compile'][:80]))
         else:
             bad('compile|other', 'generated Fortran does not compile: %s ; script: %s' % (obs['compile'][:120], case['script'][:200]))
         return fails
@@ -1285,11 +1338,14 @@ def oracle_text(case, o, bad):
         bad('text|blocks', '%d equation blocks for %d equations' % (len(o['blocks']), len(o['equations'])))
         return None
     for eq, blk in zip(o['equations'], o['blocks']):
-        code = nospace(re.sub(r'\s*&\n\s*&\s*', ' ', blk.split('\n', 1)[1] if '\n' in blk else ''))
-        want = nospace(re.sub(r'([_A-Za-z][_A-Za-z0-9]*)\[t([+-]\d+)?\]',
+        code = wsnorm(re.sub(r'\s*&\n\s*&\s*', ' ', blk.split('\n', 1)[1] if '\n' in blk else ''))
+        want = wsnorm(re.sub(r'([_A-Za-z][_A-Za-z0-9]*)\[t([+-]\d+)?\]',
                               lambda m: 'solved_values(%d, index%s)' % (names.index(m.group(1)) + 1, m.group(2) or ''), eq))
         if code != want:
-            bad('text|rewrite', 'equation %r became %r' % (eq[:80], code[:120]))
+            if max(len(w) for w in want.split()) > WRAP_WIDTH and nospace(code) == nospace(want):
+                bad('text|wrap-splits-token', 'a blank-free run of more than %d characters is broken inside a token by textwrap.wrap: %r' % (WRAP_WIDTH, code[90:130]))
+            else:
+                bad('text|rewrite', 'equation %r became %r' % (eq[:80], code[:120]))
     return None
 
 
